@@ -81,6 +81,11 @@ pub enum CaseDesc {
     /// class} x {canonical, serialized, case variants, padded, prefixed spellings}. Whether a name
     /// is known is a fact about (class, name), never about the name alone or a similar name.
     NearName { base: usize, x: usize, y: usize, nested: bool },
+    /// several unknown classes with the given numbers of instances (counts around powers of two,
+    /// equal and unequal): every instance carries an Int32 and a Ref to an instance of the next
+    /// class (cyclically, so to classes that sort later and earlier); the first and the last
+    /// instance of a class each carry one more property of their own
+    Counts { per_class: Vec<usize> },
     /// a String value / an instance name containing one character XML 1.0 cannot carry
     Forbidden { label: String, in_name: bool },
     /// one instance of a database class whose name is not its class name (every class of the
@@ -113,6 +118,25 @@ pub fn text_cases() -> Vec<CaseDesc> {
                 out.push(CaseDesc::Text { frags: vec![a, b, c] });
             }
         }
+    }
+    out
+}
+
+pub fn count_cases() -> Vec<CaseDesc> {
+    let sizes = [1usize, 2, 3, 4, 7, 8, 9, 15, 16, 17, 31, 32, 33, 63, 64, 65, 127, 128, 129, 255, 256, 257];
+    let mut out = Vec::new();
+    for a in sizes {
+        out.push(CaseDesc::Counts { per_class: vec![a] });
+        for b in sizes {
+            out.push(CaseDesc::Counts { per_class: vec![a, b] });
+        }
+        out.push(CaseDesc::Counts { per_class: vec![a, a, a] });
+        out.push(CaseDesc::Counts { per_class: vec![a, 1, a + 1] });
+    }
+    // as many classes as instances
+    for k in [2usize, 3, 4, 8, 16, 17, 64, 256, 257] {
+        out.push(CaseDesc::Counts { per_class: vec![1; k] });
+        out.push(CaseDesc::Counts { per_class: vec![2; k] });
     }
     out
 }
@@ -360,6 +384,15 @@ pub fn build_plan(desc: &CaseDesc, codec: Codec) -> Plan {
                         props: vec![("Text".to_owned(), PVal::V(Variant::String(text.clone()))), ("Sh".to_owned(), PVal::Shared(text.into_bytes()))],
                     });
                 }
+                "namelens" => {
+                    // class and property names of every length around the powers of two
+                    for (i, len) in [1usize, 2, 3, 4, 7, 8, 9, 15, 16, 17, 31, 32, 33, 63, 64, 65, 127, 128, 129, 255, 256, 257, 1023, 1024, 1025].iter().enumerate() {
+                        let class: String = "ZzN".chars().chain(std::iter::repeat('c')).take(*len).collect();
+                        let prop: String = "Zp".chars().chain(std::iter::repeat('p')).take(*len).collect();
+                        let name: String = std::iter::repeat('n').take(*len).collect();
+                        nodes.push(PNode { class, name, parent: Some(0), props: vec![(prop, PVal::V(Variant::Int32(i as i32)))] });
+                    }
+                }
                 "instances" => {
                     // top -> 256 groups -> leaves
                     let groups = 256usize;
@@ -429,6 +462,33 @@ pub fn build_plan(desc: &CaseDesc, codec: Codec) -> Plan {
                 nodes: vec![node(0, *x, None), node(1, *y, if *nested { Some(0) } else { None })],
                 roots: RootSel::Nodes(if *nested { vec![0] } else { vec![0, 1] }),
             }
+        }
+        CaseDesc::Counts { per_class } => {
+            let mut nodes = vec![PNode { class: "Folder".to_owned(), name: "top".to_owned(), parent: None, props: vec![] }];
+            let mut first_of: Vec<usize> = Vec::new();
+            for (c, n) in per_class.iter().enumerate() {
+                first_of.push(nodes.len());
+                for i in 0..*n {
+                    let mut props = vec![("I".to_owned(), PVal::V(Variant::Int32((c * 1000 + i) as i32)))];
+                    if i == 0 {
+                        props.push(("OnlyFirst".to_owned(), PVal::V(Variant::String(format!("first of class {}", c)))));
+                    }
+                    if i + 1 == *n {
+                        props.push(("OnlyLast".to_owned(), PVal::V(Variant::Float32(c as f32 + 0.5))));
+                    }
+                    nodes.push(PNode { class: format!("ZzCount{:03}", c), name: format!("c{}i{}", c, i), parent: Some(0), props });
+                }
+            }
+            // Refs to the next class, cyclically
+            let k = per_class.len();
+            for (c, n) in per_class.iter().enumerate() {
+                let next = (c + 1) % k;
+                for i in 0..*n {
+                    let target = first_of[next] + i % per_class[next];
+                    nodes[first_of[c] + i].props.push(("R".to_owned(), PVal::Ref(Tgt::Node(target))));
+                }
+            }
+            Plan { nodes, roots: RootSel::Nodes(vec![0]) }
         }
         CaseDesc::Forbidden { label, in_name } => {
             let ch = vals::xml_forbidden_chars().into_iter().find(|(l, _)| l == label).expect("forbidden label").1;
@@ -1247,6 +1307,7 @@ pub fn label_of(desc: &CaseDesc) -> String {
         CaseDesc::Position { ty, pad } => format!("position|{}|{}", ty, pad),
         CaseDesc::OfClass { class } => format!("of-class|{}", class),
         CaseDesc::Forbidden { label, in_name } => format!("xml-forbidden-char|{}|{}", label, if *in_name { "name" } else { "value" }),
+        CaseDesc::Counts { per_class } => format!("counts|{:?}", if per_class.len() > 6 { vec![per_class[0], per_class.len()] } else { per_class.clone() }),
     }
 }
 
@@ -1276,6 +1337,7 @@ pub fn class_of(desc: &CaseDesc) -> String {
         CaseDesc::Position { ty, .. } => format!("position:{}", ty),
         CaseDesc::OfClass { .. } => "of-class".to_owned(),
         CaseDesc::Forbidden { in_name, .. } => format!("xml-forbidden-char:{}", if *in_name { "name" } else { "value" }),
+        CaseDesc::Counts { .. } => "counts".to_owned(),
     }
 }
 
